@@ -189,10 +189,38 @@ pub fn c14_uncompact_args() {
             core::mem::forget(v);
         }
         Err(_) => {
-            assert!(t < rx || t > 29);
+            // honest errors only: finer input, target out of range, or a non-cell
+            assert!(t < rx || t > 29 || deserialize(x).is_err());
+            kani::cover!(t == rx && deserialize(x).is_err());
             kani::cover!(t == i32::MIN);
             kani::cover!(t == 40 && rx == 2);
             kani::cover!(t == i32::MAX);
+        }
+    }
+}
+
+/// uncompact on one arbitrary u64 and any i32 target in the pure error classes (target finer
+/// than nothing: below the cell's resolution, or outside −1..29): Err, never a panic.
+#[kani::proof]
+#[kani::unwind(32)]
+#[kani::stub(alloc::fmt::format, fmt_stub)]
+pub fn c14_uncompact_range() {
+    warm();
+    let x: u64 = kani::any();
+    let t: i32 = kani::any();
+    let rx = get_resolution(x);
+    kani::assume(t < rx || t > 29);
+    match a5::uncompact(&[x], t) {
+        Ok(v) => {
+            assert!(false, "uncompact to a coarser or out-of-range target must fail");
+            core::mem::forget(v);
+        }
+        Err(_) => {
+            kani::cover!(t == i32::MIN);
+            kani::cover!(t == 40 && rx == 2);
+            kani::cover!(t == i32::MAX);
+            kani::cover!(t == 30);
+            kani::cover!(t == -2);
         }
     }
 }
